@@ -3,6 +3,7 @@ import Ark.Proofs.Rejects
 import Ark.Generated.FactsEvents
 import Ark.Props.C06Hist
 import Ark.Props.C06Rel
+import Ark.Props.C01Xchg
 
 namespace Ark.Props.C06
 open Ark
@@ -140,6 +141,22 @@ theorem rel_setRelationsBatch_after_every_history : type_of% @Ark.Props.C06Rel.s
 
 /-- C03 still holds after batches: a query visits exactly the alive matching entities -/
 theorem rel_query_after_every_history : type_of% @Ark.Props.C06Rel.query_after_every_history := @Ark.Props.C06Rel.query_after_every_history
+
+
+
+/-! ### Exchange batches over relation tables (Props/C01Xchg) -/
+
+/-- without observers and callback the exchange batch is the lookup loop followed by the move loop -/
+theorem xchg_batch_normal_form : type_of% @Ark.Props.C01Xchg.batch_normal_form := @Ark.Props.C01Xchg.batch_normal_form
+
+/-- the batch never fails for a valid call; several source tables may share one destination (when the removed relation components are those in which they differ) -/
+theorem xchg_batch_spec : type_of% @Ark.Props.C01Xchg.batch_spec := @Ark.Props.C01Xchg.batch_spec
+
+/-- the single exchanges, in any order, through any path -/
+theorem xchg_singles_spec : type_of% @Ark.Props.C01Xchg.singles_spec := @Ark.Props.C01Xchg.singles_spec
+
+/-- **exchange batch over relation tables = the fold of the single Exchange** over the selected entities in any order: same liveness, components, values and targets for every ID -/
+theorem xchg_batch_eq_fold : type_of% @Ark.Props.C01Xchg.batch_eq_fold := @Ark.Props.C01Xchg.batch_eq_fold
 
 
 end Ark.Props.C06
